@@ -33,6 +33,9 @@ SHIPPED_EXCLUDED.update({
     "tests/try.hms": "prints line/column of its own exceptions",
 })
 
+# shipped programs that compute for seconds: one seed, one pass, a generous wall-clock guard
+HEAVY = {"examples/pi.hms", "examples/fibonacci.hms", "examples/e.hms", "tests/string_conversion.hms"}
+
 # (id, program): witnesses of the fuzzer findings; every seed in CORPUS_SEEDS and 1..3 passes
 CORPUS = [
     ("R8", "fn main() { println(10 - 2 ** 2, 7 / 2 * 2, 9 % 4 * 3, 2 + 3 * 4 - 1); let a = 10; let b = 3; println(a - b ** 2, a / b * b, a - (b + 1), a + b * 2); }"),
@@ -47,7 +50,7 @@ CORPUS = [
     ("-", "fn main() { let i = 0; while i < 3 { i += 1; println(i * 2, i + 1, i - 1, i == 2, i != 2, i < 2, i >= 2); } println(1.5 + 2.25, 3f * 2f, 10.0 - 0.5, true, !false, (1 + 2) as float); }"),
     ("-", "let g = [1, 2]; let h = \"s\"; fn main() { for x in g { if x == 1 { continue; } println(x, h); } let r = if g.len() > 1 { \"many\" } else { \"few\" }; println(r); }"),
 ]
-CORPUS_SEEDS = list(range(1, 25))
+CORPUS_SEEDS = list(range(1, 17))
 
 # just outside the class: the difference the class hypothesis excludes may (not must) show
 OUTSIDE = [
@@ -66,7 +69,9 @@ def transform_line(main, mods, seed, passes, extra=""):
 
 def judge(ctx, cases, stage, model_ok=False, judged=True):
     """cases: dict(main, mods, seed, passes, label). Returns (#variants judged, #different outcomes)."""
-    lines = [transform_line(c["main"], c.get("mods"), c["seed"], c["passes"], "(ast true)" if model_ok and c.get("tie") else "") for c in cases]
+    def extra(c):
+        return (("(ast true) " if model_ok and c.get("tie") else "") + (f"(timeout {c['timeout']})" if c.get("timeout") else "")).strip()
+    lines = [transform_line(c["main"], c.get("mods"), c["seed"], c["passes"], extra(c)) for c in cases]
     go = core.go_lines("transform", lines, timeout=1200)
     nvar = ndiff = 0
     lean_in, lean_at = [], []
@@ -83,6 +88,12 @@ def judge(ctx, cases, stage, model_ok=False, judged=True):
                     ctx.violation(dict(rep, go=g[:300]), f"{stage} {label}: the transformer crashed or hung (seed {c['seed']}, {c['passes']} passes): {P.dec(g)[:160]}")
                 continue
         f = P.fields(g)
+        if judged and any(v.startswith("TERM") for k, v in f.items() if re.fullmatch(r"(VM|TREE)\d+", k)) \
+                and not c.get("timeout"):
+            # the wall-clock guard of the harness fired: run this case alone with a generous one before judging
+            g = core.go_lines("transform", [transform_line(c["main"], c.get("mods"), c["seed"], c["passes"], "(timeout 40000)")], timeout=1200)[0]
+            f = P.fields(g)
+            ctx.coverage["rerun_with_long_timeout"] = ctx.coverage.get("rerun_with_long_timeout", 0) + 1
         if not f.get("A", "").startswith("ACCEPT"):
             ctx.coverage[f"{stage}:rejected-original"] = ctx.coverage.get(f"{stage}:rejected-original", 0) + 1
             continue
@@ -210,11 +221,16 @@ def run(ctx):
     shipped = shipped_programs()
     ctx.coverage["shipped_programs"] = len(shipped)
     ctx.coverage["shipped_excluded"] = SHIPPED_EXCLUDED
-    seeds = [ctx.rng.randrange(1, 1 << 40) for _ in range(6 if quick else 60)]
-    cases = [dict(c, seed=sd, passes=1 + k % 4, tie=k == 0) for c in shipped for k, sd in enumerate(seeds)]
+    seeds = [ctx.rng.randrange(1, 1 << 40) for _ in range(4 if quick else 60)]
+    cases = [dict(c, seed=sd, passes=1 + k % 4, tie=k == 0) for c in shipped for k, sd in enumerate(seeds)
+             if c["label"] not in HEAVY or (k == 0 or not quick)]
+    for c in cases:
+        if c["label"] in HEAVY:
+            c["passes"] = 1
+            c["timeout"] = 30000
     nv2, _ = judge(ctx, cases, "C20 shipped", model_ok)
     # 3. generated programs in the class x seeds x 1..4 passes
-    nprog = 120 if quick else 1500
+    nprog = 90 if quick else 1500
     per = 4 if quick else 12
     feats = {}
     cases = []
@@ -235,7 +251,7 @@ def run(ctx):
     _, nd = judge(ctx, out_cases, "C20 outside-class", False, judged=False)
     ctx.coverage["outside_class_variants_that_differ"] = nd
 
-    ctx.coverage["rule"] = ("(program, seed, passes) triples: witnesses of every fuzzer finding x 24 seeds, the shipped examples/tests x "
+    ctx.coverage["rule"] = ("(program, seed, passes) triples: witnesses of every fuzzer finding x 16 seeds (thorough: 119), the shipped examples/tests x "
                             "random seeds x 1..4 passes, typed random programs inside the class of the statement x random seeds x 1..4 "
                             "passes; every intermediate variant is re-analysed and run on both backends; non-trivial = distinct triple "
                             "whose original is accepted")
